@@ -918,6 +918,12 @@ func (h *hRun) judge(at string) error {
 		if d < 0 {
 			return fail("RIB has destination %s, which nobody advertised", e.Name)
 		}
+		if d == 0 {
+			// the router's own name as a destination (a neighbour advertising a path back to it):
+			// the statement is about the cost to every OTHER router; whether such entries are kept
+			// is free (legitimate variation C18-3 skips them)
+			continue
+		}
 		var hops []string
 		for hop := range e.Costs {
 			hops = append(hops, hop)
@@ -962,7 +968,7 @@ func (h *hRun) judge(at string) error {
 			}
 		}
 	}
-	for d := 0; d < len(hNames); d++ {
+	for d := 1; d < len(hNames); d++ {
 		w, g := want[d], have[d]
 		if len(w) == 0 && len(g) == 0 {
 			continue
@@ -986,6 +992,9 @@ func (h *hRun) judge(at string) error {
 	seen := map[int]bool{}
 	for _, e := range snap.Advert.Entries {
 		d := hNameIdx(e.Destination.Name.String())
+		if d == 0 {
+			continue // the router itself: see above
+		}
 		if e.Cost >= infinity {
 			return fail("the router's own advertisement lists destination %s at cost %d (>= infinity)", e.Destination.Name, e.Cost)
 		}
@@ -1005,7 +1014,7 @@ func (h *hRun) judge(at string) error {
 		canon = append(canon, fmt.Sprintf("%d/%d/%d/%d", d, nh, e.Cost, e.OtherCost))
 	}
 	for d, w := range want {
-		if len(w) > 0 && !seen[d] {
+		if d != 0 && len(w) > 0 && !seen[d] {
 			return fail("the router's own advertisement does not list destination %s, reference costs %s", hNames[d], hFmtCosts(w))
 		}
 	}
